@@ -9,7 +9,7 @@ import (
 // VTok is a vocabulary token (type + text).
 type VTok struct{ Type, Value string }
 
-var wildLiterals = []string{"\n", "\t", "\"", "\\", "'", "`", "é", "日本", "a b", "<=", "||", "\x00", "\u2028", "\"quoted\"", "%d", "\r\n", ".", "=", "(?", "~"}
+var wildLiterals = []string{"\"#", "\n", "#", "\t", "\"", "\\", "'", "`", "é", "日本", "a b", "<=", "||", "\x00", "\u2028", "\"quoted\"", "%d", "\r\n", ".", "=", "(?", "~", "# \"", "//", "/*", "*/", ";"}
 
 // numLike: the expression only matches texts made of an optional sign and Int tokens.
 func numLike(e *Expr) bool {
